@@ -79,6 +79,15 @@ Theorem C16_reset_equivalent :
 Proof. exact generate_after_reset_and_neutral_equals_fresh. Qed.
 Print Assumptions C16_reset_equivalent.
 
+(* the same for any next step -- in particular for SProg, a program given by its operations (new labels, named labels with duplicate
+   detection, sections, the library-created .addrtab section, functions, virtual registers, local constants, annotations) whose effect
+   on the label / section / register / annotation counters is COMPUTED by the model; only the relocation count is an input *)
+Theorem C16_program_after_reset_equals_fresh :
+  forall h r n s ops drel pend, ready s = true -> reset_like r = true -> forallb neutral n = true ->
+    s_core (do_step (SProg ops drel pend) (run (h ++ r :: n) s)) = s_core (do_step (SProg ops drel pend) state0).
+Proof. intros h r n s ops drel pend. exact (any_step_after_reset_equals_fresh h r n s (SProg ops drel pend)). Qed.
+Print Assumptions C16_program_after_reset_equals_fresh.
+
 (* the n-th function of a reused Compiler (one reinit per function) is generated from the fresh core *)
 Theorem C16_function_independent :
   forall (fs : list effect) s e, ready s = true ->
@@ -132,6 +141,14 @@ Theorem C16_dirty_flag_harmless :
     BuilderDirty.same (BuilderModel.run b1 cs) (BuilderModel.run b2 cs) /\ BuilderDirty.run_errors b1 cs = BuilderDirty.run_errors b2 cs.
 Proof. exact BuilderDirty.dirty_flag_harmless. Qed.
 Print Assumptions C16_dirty_flag_harmless.
+
+(* logger / heap independence as an erasure theorem: attaching or detaching loggers, perturbing the heap and attaching a passive
+   second emitter, at ANY points of a history, do not change what the history does to the core state and configuration *)
+Theorem C16_logging_and_heap_steps_erasable :
+  forall h s1 s2, s_core s1 = s_core s2 -> s_valid s1 = s_valid s2 ->
+    s_core (run h s1) = s_core (run (erase_ambient h) s2) /\ s_valid (run h s1) = s_valid (run (erase_ambient h) s2).
+Proof. exact erase_ambient_same_core. Qed.
+Print Assumptions C16_logging_and_heap_steps_erasable.
 
 (* the hypotheses above are satisfiable *)
 Example C16_ready_state0 : ready state0 = true.
